@@ -26,8 +26,9 @@ class ExprMixin(ExecBase):
         """Like ev, but the result must be a symbolic value."""
         for r, s in self.ev(node, st):
             if isinstance(r, BoundMethod) and isinstance(r.recv, Val) and r.recv.ty.kind == "ref":
-                # a bound method used as a value (callback): an opaque token determined by the receiver and the method name
-                yield apply_uf("boundmethod:" + r.name, T.OPAQUE, [r.recv]), s
+                # a bound method used as a value (callback): its receiver, with the method recorded in the type; where an
+                # Opaque is expected it becomes a token determined by receiver and method name (values.coerce)
+                yield Val(T.Ty("method", (), f"{r.recv.ty.name}.{r.name}"), [r.recv.t]), s
                 continue
             if isinstance(r, (GlobalRef, BoundMethod)):
                 raise UnsupportedError(f"{ast.unparse(node)[:60]} is not a value (line {getattr(node, 'lineno', '?')})")
